@@ -26,6 +26,7 @@ def ops_for(ref, h, rich):
             return [("op", h, "setitem", ("x", 5)), ("op", h, "clear", ()), ("op", h, "reset", ({"q": 1},))] if rich else [("op", h, "setitem", ("x", 5))]
         ev = [("op", h, "setitem", ("a", 1)), ("op", h, "clear", ()), ("op", h, "call", ())]
         if rich:
+            ev.append(("op", h, "setpath", (("c",), "x", 5)))
             ev += [("op", h, "setitem", ("n", {"x": [1]})), ("op", h, "delitem", ("k",)), ("op", h, "update", ({"u": 1}, {})),
                    ("op", h, "reset", ({"r": 1},)), ("op", h, "getitem", ("k",)), ("op", h, "len", ()), ("op", h, "pop", ("k",)),
                    ("op", h, "setdefault", ("sd", [1]))]
@@ -34,6 +35,7 @@ def ops_for(ref, h, rich):
         return [("op", h, "append", (5,)), ("op", h, "clear", ())] if rich else [("op", h, "append", (5,))]
     ev = [("op", h, "append", (1,)), ("op", h, "clear", ()), ("op", h, "call", ())]
     if rich:
+        ev.append(("op", h, "setpath", ((1,), "x", 5)))
         ev += [("op", h, "insert", (0, {"x": [1]})), ("op", h, "delitem", (0,)), ("op", h, "extend", ([2, 3],)),
                ("op", h, "reset", ([9],)), ("op", h, "getitem", (0,)), ("op", h, "len", ()), ("op", h, "pop", ()),
                ("op", h, "reverse", ())]
@@ -97,11 +99,16 @@ def plan(tier, seed):
         for c in env.JSON_FAMILIES[fam]:
             k = env.kind_of(c)
             d1 = 5 if tier == "quick" else 7
-            cfg = seq.Config(c, initial=(INIT[k],), objects=(0,), prefix=PREFIX[k](0, 1), label=c + "/1file")
-            kw = dict(label="%s/1file/d%d" % (c, d1), cfg=cfg, alphabet="alphabet", depth=d1,
-                      oracles={"result", "resource", "nowrite", "ctxerr"}, hooks="probe",
-                      extra={"rich": True, "max_nest": 3 if tier == "quick" else 3})
-            tasks += seqcheck.split(8 if tier == "quick" else 16, **kw)
+            for childhandle in (False, True):
+                # childhandle: a nested child is retained BEFORE the history; otherwise nested writes navigate afresh
+                lab = c + ("/1file/childhandle" if childhandle else "/1file")
+                cfg = seq.Config(c, initial=(INIT[k],), objects=(0,),
+                                 prefix=PREFIX[k](0, 1) if childhandle else (("op", 0, "len", ()),), label=lab)
+                dd = d1 if not childhandle else d1 - 1
+                kw = dict(label="%s/d%d" % (lab, dd), cfg=cfg, alphabet="alphabet", depth=dd,
+                          oracles={"result", "resource", "nowrite", "ctxerr"}, hooks="probe",
+                          extra={"rich": not childhandle, "max_nest": 3})
+                tasks += seqcheck.split((8 if tier == "quick" else 16) if not childhandle else 4, **kw)
             if fam in ("Buffered", "MemoryBuffered") or tier != "quick":
                 d2 = 4 if tier == "quick" else 6
                 cfg = seq.Config(c, initial=(INIT[k], INIT[k]), objects=(0, 1), label=c + "/2files")
